@@ -203,6 +203,18 @@ func buildFamilies() []family {
 			sc, what := jmpOffCase(i)
 			return kase{sc, "JMP|" + what, "jump offsets " + what}
 		}},
+		{"alias", 6 * 17 * 8 * 3, func(i int) kase {
+			sc, what := aliasCase(i)
+			return kase{sc, what, what}
+		}},
+		{"aliasr", ev.Pick(6000, 300000), func(i int) kase {
+			sc, names := aliasRandom(rng.New(uint64(i) + 9<<40))
+			return kase{sc, names, "random derivation chain: " + names}
+		}},
+		{"sharedeq", 11 * 7 * 2, func(i int) kase {
+			sc, what := sharedBudgetCase(i)
+			return kase{sc, what, what}
+		}},
 		{"eq", len(eqv) * len(eqv) * 4, func(i int) kase {
 			sc, what := eqCase(i, eqv)
 			return kase{sc, what, what}
@@ -300,6 +312,9 @@ func runCase(run *ev.Run, st *stats, fam string, idx int, k kase) {
 	if r1.pan != "" {
 		run.Violation("vm-panic-escapes-Run:"+m.LastOp.String(), id, "panic escaped VM.Run: "+r1.pan, wit())
 		return
+	}
+	if r1.scriptChanged || r2.scriptChanged {
+		run.Violation("vm-modified-the-loaded-script", id, k.desc+": the program bytes differ after the run (an item aliases the script)", wit())
 	}
 	if r1.class != r2.class || r1.canon != r2.canon || r1.gas != r2.gas {
 		w := wit()
